@@ -1,6 +1,10 @@
 package odt
 
-import "encoding/xml"
+import (
+	"encoding/xml"
+	"strconv"
+	"strings"
+)
 
 // ODF XML namespaces
 const (
@@ -47,6 +51,7 @@ type paragraphXML struct {
 	StyleName string    `xml:"style-name,attr"`
 	Spans     []spanXML `xml:"span"`
 	Text      string    `xml:",chardata"`
+	InnerXML  string    `xml:",innerxml"` // Raw content, used to read inline content in document order
 }
 
 // headingXML represents a heading element (<text:h>).
@@ -56,6 +61,7 @@ type headingXML struct {
 	OutlineLevel string    `xml:"outline-level,attr"`
 	Spans        []spanXML `xml:"span"`
 	Text         string    `xml:",chardata"`
+	InnerXML     string    `xml:",innerxml"` // Raw content, used to read inline content in document order
 }
 
 // spanXML represents a text span with formatting (<text:span>).
@@ -156,4 +162,58 @@ type parsedElement struct {
 	Type      string           // "paragraph" or "table"
 	Paragraph *parsedParagraph // Non-nil if Type == "paragraph"
 	Table     *ParsedTable     // Non-nil if Type == "table"
+}
+
+// inlineText returns the text of a paragraph or heading in document order:
+// character data of the element and of its spans and links at any depth,
+// with tabs, line breaks and repeated spaces expanded. Notes and annotations
+// anchored in the paragraph are not part of its text.
+func inlineText(inner string) string {
+	decoder := xml.NewDecoder(strings.NewReader(inner))
+	var sb strings.Builder
+	skip := 0 // depth inside an element whose content is not paragraph text
+
+	for {
+		token, err := decoder.Token()
+		if err != nil {
+			break
+		}
+		switch t := token.(type) {
+		case xml.StartElement:
+			if skip > 0 {
+				skip++
+				continue
+			}
+			switch t.Name.Local {
+			case "tab":
+				sb.WriteString("\t")
+			case "line-break":
+				sb.WriteString("\n")
+			case "s":
+				count := 1
+				for _, attr := range t.Attr {
+					if attr.Name.Local == "c" {
+						if c, err := strconv.Atoi(attr.Value); err == nil && c > 0 {
+							count = c
+						}
+					}
+				}
+				if count > 1000 {
+					count = 1000
+				}
+				sb.WriteString(strings.Repeat(" ", count))
+			case "note", "annotation", "annotation-end":
+				skip = 1
+			}
+		case xml.EndElement:
+			if skip > 0 {
+				skip--
+			}
+		case xml.CharData:
+			if skip == 0 {
+				sb.Write(t)
+			}
+		}
+	}
+	return sb.String()
 }
